@@ -109,7 +109,8 @@ fn decode(vi: usize, b: &Bounds, idx: u64) -> Case {
         6 => (in_func, top, base, 0),
         7 => (0, bs, bs.wrapping_sub(2 * p) & top, in_func),
         // a 32-bit CPU whose context has 64-bit register slots (MIPS o32): sp and fp sign-extended
-        _ => (in_func, base | if p == 4 { 0xffff_ffff_0000_0000 } else { 0 }, (base + p) | if p == 4 { 0xffff_ffff_0000_0000 } else { 0 }, in_func),
+        // ... and on a 64-bit CPU a stack pointer with a non-zero top byte (a tagged pointer) next to a plain frame pointer
+        _ => (in_func, base | if p == 4 { 0xffff_ffff_0000_0000 } else { 0x0b00_0000_0000_0000 }, (base + p) | if p == 4 { 0xffff_ffff_0000_0000 } else { 0 }, in_func),
     };
     Case { arch, os, place, modmenu, symmenu, valid, ctx, words, base, modbase, regs }
 }
@@ -159,14 +160,15 @@ fn validity_of(c: &Case) -> MinidumpContextValidity {
         2 => validity(&[a.ip(), a.sp(), a.fp()]),
         3 => validity(&[a.ip()]),
         4 => validity(&[a.sp()]),
-        _ => validity(&[a.fp()]),
+        5 => validity(&[a.fp()]),
+        _ => validity(&[a.ip(), a.fp()]),
     }
 }
 
 fn describe(vi: usize, b: &Bounds, idx: u64) -> Value {
     let c = decode(vi, b, idx);
     let size = c.words.len() as u64 * c.arch.ptr();
-    let vname = ["all", "{ip,sp}", "{ip,sp,fp}", "{ip}", "{sp}", "{fp}"][c.valid as usize];
+    let vname = ["all", "{ip,sp}", "{ip,sp,fp}", "{ip}", "{sp}", "{fp}", "{ip,fp}"][c.valid as usize];
     json!({
         "variant": format!("{}-{}", c.arch.name(), os_name(c.os)),
         "class": c.arch.name(),
@@ -337,7 +339,7 @@ fn main() {
         let b = if quick { Bounds { n: 4, k: 8, nctx: 8, nvalid: 3, nmod: 2, nplace: 2, syms: MAIN_SYMS, tagged: false } } else { Bounds { n: 5, k: 9, nctx: 8, nvalid: 3, nmod: 2, nplace: 2, syms: MAIN_SYMS, tagged: false } };
         // thorough only: the remaining menu values (validity singletons, no module / module at the top of
         // the address space, stack whose end wraps, word-per-frame CFI without memory access) on shorter stacks
-        let extras = Bounds { n: 3, k: 12, nctx: 9, nvalid: 6, nmod: 4, nplace: 3, syms: ALL_SYMS, tagged: false };
+        let extras = Bounds { n: 3, k: 12, nctx: 9, nvalid: 7, nmod: 4, nplace: 3, syms: ALL_SYMS, tagged: false };
         let mut def = CheckDef::new(
             "C05",
             "exploration",
@@ -376,7 +378,7 @@ fn main() {
         }
         // both tiers: stack words that are code / stack addresses with extra high bits set
         {
-            let tg = Bounds { n: 3, k: 8, nctx: 9, nvalid: 3, nmod: 2, nplace: 2, syms: MAIN_SYMS, tagged: true };
+            let tg = Bounds { n: 3, k: 8, nctx: 9, nvalid: 7, nmod: 2, nplace: 2, syms: MAIN_SYMS, tagged: true };
             for (vi, (arch, os)) in VARIANTS5.iter().enumerate() {
                 let b = tg;
                 let len = b.k.pow(b.n) * b.nctx * b.nvalid * nsym(*arch, &b) * b.nmod * b.nplace;
